@@ -861,6 +861,7 @@ PROPS["C09"]["rule_text"] += ("; numclone: boundary integers of every integer ki
 # value violates C13).
 for _pid, _why in (("C04", "one long-lived cbor Unmarshaller / Decoder over several items, including items after failed ones"),
                    ("C13", "one long-lived obj Unmarshaller re-bound after completed, rejected and abandoned values"),
+                   ("C05", "one long-lived json Unmarshaller / Decoder over several items, including items after failed and truncated ones"),
                    ("C07", "one long-lived obj Marshaller over several values, including values after runs abandoned at every Write position"),
                    ("C14", "one long-lived encoder (through Marshaller) over several items, including items after empty containers and abandoned items")):
     PROPS[_pid]["streams"].append(dict(name="hist", gen="hist", rule="hist"))
